@@ -75,6 +75,41 @@ theorem fault_raises (cfg : Cfg) (plan : Plan) (amb : Option Exc) (pol : Policy)
       rw [this] at hb; cases hb
   · exact ⟨e, rfl⟩
 
+/-- every `to_sharedarr` of the setup function and the one of the template filter are program points of the
+search (so `fault_raises` / `scan_ledger_empty_after` speak about a segment that cannot be created), and so are
+the user's filters when `matching_data` carries them -/
+theorem setup_alloc_is_point (cfg : Cfg) (t k : Nat) (ht : t < cfg.ntiles) (hk : k < cfg.setupSegs + 1) :
+    (⟨.alloc, t, k⟩ : Pos) ∈ allPoints cfg := by
+  refine (mem_allPoints cfg _).mpr (Or.inl ⟨t, ht, Or.inr ?_⟩)
+  rw [flatSteps_eq]
+  simp only [ptsOf, List.flatMap_append, List.mem_append]
+  refine Or.inl (Or.inl ?_)
+  unfold preSteps
+  simp only [List.flatMap_append, List.mem_append, List.flatMap_cons]
+  refine Or.inl (Or.inr ?_)
+  by_cases h : k < cfg.setupSegs
+  · refine Or.inl (Or.inr ?_)
+    unfold allocSteps
+    simp only [List.mem_flatMap, List.mem_range]
+    exact ⟨_, ⟨k, h, List.mem_cons_self⟩, by simp [Step.pts]⟩
+  · refine Or.inr (Or.inr ?_)
+    have hk' : k = cfg.setupSegs := by omega
+    subst hk'
+    unfold allocSteps
+    simp only [List.mem_flatMap, List.mem_range]
+    exact ⟨_, ⟨0, by omega, List.mem_cons_self⟩, by simp [Step.pts]⟩
+
+theorem filter_is_point (cfg : Cfg) (t : Nat) (ht : t < cfg.ntiles) :
+    (cfg.tfilter = true → (⟨.filter, t, 0⟩ : Pos) ∈ allPoints cfg) ∧
+    (cfg.gfilter = true → (⟨.filter, t, 1⟩ : Pos) ∈ allPoints cfg) := by
+  constructor <;> intro h <;>
+  · refine (mem_allPoints cfg _).mpr (Or.inl ⟨t, ht, Or.inr ?_⟩)
+    rw [flatSteps_eq]
+    simp only [ptsOf, List.flatMap_append, List.mem_append]
+    refine Or.inl (Or.inl ?_)
+    unfold preSteps filterSteps
+    simp [h, Step.pts]
+
 /-- the same for `scan` called directly -/
 theorem scan_fault_raises (cfg : Cfg) (plan : Plan) (amb : Option Exc) (ts : TileSched) (w : World)
     (p : Pos) (hp : p ∈ plan) (hlive : p ∈ scanPoints cfg) :
@@ -378,14 +413,27 @@ def exCfg : Cfg := { ntiles := 2, nrot := 3, outer := 2, inner := 2, hasCb := tr
 example : (⟨.callback, 1, 2⟩ : Pos) ∈ allPoints exCfg := by decide
 example : (scanSubsets exCfg [⟨.callback, 1, 2⟩, ⟨.merge, 0, 0⟩] none .kill { outerPicks := [1] } {}).1
     = some (.wrapped (.fault ⟨.callback, 1, 2⟩)) := by decide
+-- a segment that cannot be created (second tile, the analyzer's second array; last allocation of post-processing)
+-- and a failing user filter fail the search; nothing is left
+example : (⟨.alloc, 1, 6⟩ : Pos) ∈ allPoints exCfg ∧ (⟨.alloc, 0, 12⟩ : Pos) ∈ allPoints exCfg ∧
+    (⟨.alloc, 0, 13⟩ : Pos) ∉ allPoints exCfg := by decide
+example : (scanSubsets exCfg [⟨.alloc, 1, 6⟩] none .kill {} {}).1 = some (.wrapped (.fault ⟨.alloc, 1, 6⟩)) ∧
+    (scanSubsets exCfg [⟨.alloc, 1, 6⟩] none .kill {} {}).2.live = [] ∧
+    (scanSubsets exCfg [⟨.alloc, 1, 6⟩] none .kill {} {}).2.nalloc = 13 + 6 := by decide
+-- results that cannot be collected (`__iter__` of the second job's analyzer raises): the search fails, nothing is left
+example : (scanSubsets exCfg [⟨.collect, 1, 1⟩] none .kill {} {}).1 = some (.wrapped (.fault ⟨.collect, 1, 1⟩)) ∧
+    (scanSubsets exCfg [⟨.collect, 1, 1⟩] none .kill {} {}).2.live = [] := by decide
+example : (scanSubsets { exCfg with gfilter := true } [⟨.filter, 0, 1⟩] none .kill {} {}).1
+    = some (.wrapped (.fault ⟨.filter, 0, 1⟩)) ∧
+    (scanSubsets { exCfg with gfilter := true } [⟨.filter, 0, 0⟩] none .kill {} {}).1 = none := by decide
 -- raised_origin: a parent-side fault is not wrapped; n_jobs = 0
 example : (scanSubsets exCfg [⟨.subset, 1, 0⟩] none .kill {} {}).1 = some (.fault ⟨.subset, 1, 0⟩) := by decide
 example : (scanSubsets { exCfg with outer := 0 } [] none .kill {} {}).1 = some .badArg ∧
     (scanSubsets { exCfg with outer := 1, inner := 0 } [] none .kill {} {}).1 = some (.wrapped .badArg) := by decide
 -- no_fault_returns / returned_complete: a plan with a dead position only
 example : (scanSubsets exCfg [⟨.rotate, 5, 0⟩] none .kill {} {}).1 = none := by decide
-example : (allPoints exCfg).length = 35 := by decide
-example : (scanSubsets exCfg [] none .kill {} {}).2.trace.length = 35 ∧
+example : (allPoints exCfg).length = 65 := by decide
+example : (scanSubsets exCfg [] none .kill {} {}).2.trace.length = 65 ∧
     (scanSubsets exCfg [] none .kill {} {}).2.nalloc = 26 ∧ (scanSubsets exCfg [] none .kill {} {}).2.live = [] := by decide
 -- ledger hypotheses are satisfiable with a non-empty initial ledger; segments really are allocated
 example : (scanSubsets exCfg [⟨.postprocess, 1, 1⟩] none .drain {} { live := [⟨none, 7⟩] }).2.live = [⟨none, 7⟩] := by decide
